@@ -44,6 +44,7 @@ type Unit struct {
 	callOrd      map[*ast.CallExpr]string
 	litOrd       map[*ast.FuncLit]int
 	allocd       map[string]bool
+	views        map[string]viewInfo // re-sliced views s[a:b], a > 0: view array -> (base array, offset)
 	allocT       map[string]types.Type // struct type of objects allocated by this unit (publish rule for lock invariants)
 	resultObjs   []types.Object
 	synthResults []*types.Var
